@@ -16,14 +16,15 @@
 (* the four ways the code is known to behave today) must break one of them - that shows the universe can tell them apart.   *)
 EXTENDS Naturals, Sequences, FiniteSets, TLC, Json, DnsResolverOps
 CONSTANTS EmitCases, MaxQOps,
-          Dev_us, Dev_snf, Dev_a4, Dev_afe, Dev_ord, Dev_np, Dev_keep, Dev_desc
-F == [us |-> Dev_us, snf |-> Dev_snf, a4 |-> Dev_a4, afe |-> Dev_afe, ord |-> Dev_ord, np |-> Dev_np, keep |-> Dev_keep, desc |-> Dev_desc]
+          Full,     \* TRUE: the whole universe (43 776 service cases); FALSE: 12 312 (quick tier)
+          Dev_us, Dev_snf, Dev_a4, Dev_afe, Dev_ca4, Dev_ord, Dev_np, Dev_keep, Dev_desc
+F == [us |-> Dev_us, snf |-> Dev_snf, a4 |-> Dev_a4, afe |-> Dev_afe, ca4 |-> Dev_ca4, ord |-> Dev_ord, np |-> Dev_np, keep |-> Dev_keep, desc |-> Dev_desc]
 
 D == "d.test"
 N(order, pref, flags, svc, repl, us) == [order |-> order, pref |-> pref, flags |-> flags, svc |-> svc, repl |-> repl, valid |-> TRUE, us |-> us]
 n1 == N(10, 20, "s", "SIP+D2U", "_sip._udp.d.test", TRUE)      \* the usual shape: the replacement is an SRV owner name
 n2 == N(10, 10, "S", "SIP+D2T", "srvtcp.d.test", FALSE)        \* upper-case flag, preferred over n1, replacement without '_'
-n3 == N(20, 5, "s", "SIPS+D2T", "_sips._tcp.d.test", TRUE)     \* a higher order: ignored whenever a lower one exists
+n3 == N(20, 5, "s", "SIPS+D2T", "srvtls.d.test", FALSE)        \* a higher order: ignored whenever a lower one exists
 n4 == N(10, 30, "a", "sip+d2u", "h2.test", FALSE)              \* flag A, lower-case service
 n5 == N(10, 1, "u", "E2U+sip", ".", FALSE)                     \* not for SIP
 NaptrSets == {<<n1>>, <<n2>>, <<n3>>, <<n4>>, <<n5>>, <<n1, n2>>, <<n3, n1>>, <<n1, n4>>, <<n5, n1>>, <<n3, n2>>, <<n4, n2>>,
@@ -37,13 +38,16 @@ SrvChoices ==
              <<E("_sip._udp.d.test", "SRV", "ok", <<S(20, 1, 5062, "h1.test"), S(10, 2, 5061, "h2.test")>>)>>},
       t \in {<<>>, <<E("_sip._tcp.d.test", "SRV", "ok", <<S(10, 0, 5070, "h2.test")>>)>>},
       s \in {<<>>, <<E("_sips._tcp.d.test", "SRV", "ok", <<S(5, 0, 5061, "h1.test")>>)>>},
-      x \in {<<>>, <<E("srvtcp.d.test", "SRV", "ok", <<S(7, 0, 5080, "h1.test")>>)>>} }
+      x \in (IF Full THEN {<<>>} ELSE {}) \cup {<<E("srvtcp.d.test", "SRV", "ok", <<S(7, 0, 5080, "h1.test")>>),
+                                                 E("srvtls.d.test", "SRV", "ok", <<S(3, 0, 5081, "h1.test")>>)>>} }
 A4(a) == [addr |-> a]
 HostOpt(h, a, a6) == {<<>>, <<E(h, "A", "ok", <<A4(a)>>)>>, <<E(h, "AAAA", "ok", <<A4(a6)>>)>>,
                       <<E(h, "A", "ok", <<A4(a)>>), E(h, "AAAA", "ok", <<A4(a6)>>)>>}
-HostChoices == { a \o b \o c : a \in HostOpt("h1.test", "10.0.0.1", "2001:db8::1"),
+AAAAOnly(h, a6) == <<E(h, "AAAA", "ok", <<A4(a6)>>)>>
+DualOnly(h, a, a6) == <<E(h, "A", "ok", <<A4(a)>>), E(h, "AAAA", "ok", <<A4(a6)>>)>>
+HostChoices == { a \o b \o c : a \in HostOpt("h1.test", "10.0.0.1", "2001:db8::1") \ (IF Full THEN {} ELSE {AAAAOnly("h1.test", "2001:db8::1")}),
                                b \in {<<>>, <<E("h2.test", "A", "ok", <<A4("10.0.0.2")>>)>>},
-                               c \in HostOpt(D, "10.0.0.9", "2001:db8::9") }
+                               c \in HostOpt(D, "10.0.0.9", "2001:db8::9") \ (IF Full THEN {} ELSE {DualOnly(D, "10.0.0.9", "2001:db8::9")}) }
 PrefChoices == {<<>>, <<"SIP_UDP">>, <<"SIP_TCP", "SIP_UDP">>}
 Policies == {"IPv4Only", "IPv6Only", "IPv4First", "IPv6First"}
 \* kind "Q": what the server answers to (q.test, A) before / after the zone switch
@@ -84,8 +88,9 @@ Emit == (EmitCases /\ Terminal) => PrintT(ToJson(Case))
 Doc(api) == Eval(zone, D, prefs, policy, api, NoFlags)
 Impl(api) == Eval(zone, D, prefs, policy, api, F)
 SCase == kind = "S" /\ Terminal
-ImplIsDocumented == SCase => \A api \in {"sync", "async"} : Impl(api) = Doc(api)
+ImplIsDocumented == SCase => \A api \in {"sync", "async", "cached"} : Impl(api) = Doc(api)
 SyncAsyncAgree == SCase => Impl("sync") = Impl("async")
+CacheIsTransparent == SCase => Impl("cached") = Impl("sync")      \* the second call returns what the first returned
 EveryTargetResolved == SCase => \A api \in {"sync", "async"} : \A t \in Impl(api) : t.addrs # <<>>
 PreferencesRespected == (SCase /\ prefs # <<>> /\ Has(zone, D, "NAPTR") /\ Usable(Lookup(zone, D, "NAPTR").recs, prefs, NoFlags) # {})
                           => \A t \in Impl("sync") : t.tr \in Range(prefs)
